@@ -2068,9 +2068,19 @@ func (k *Kernel) handleReplayedHeader(
 
 	// Now ensure we have majority vote power,
 	// otherwise the replay cannot proceed.
+	headerProof := tempProofs[string(header.Hash)]
+	if headerProof == nil {
+		return tmelink.ReplayedHeaderValidationError{
+			Err: fmt.Errorf(
+				"replayed proof contains no precommits for block with hash %x",
+				header.Hash,
+			),
+		}
+	}
+
 	var blockPow uint64
 	var bs bitset.BitSet
-	tempProofs[string(header.Hash)].SignatureBitSet(&bs)
+	headerProof.SignatureBitSet(&bs)
 	for i, ok := bs.NextSet(0); ok && int(i) < len(header.ValidatorSet.Validators); i, ok = bs.NextSet(i + 1) {
 		blockPow += header.ValidatorSet.Validators[int(i)].Power
 	}
